@@ -363,6 +363,11 @@ class IntervalDomain(Domain):
             test = test.operand
         if neg:
             taken = not taken
+        if isinstance(test, ast.Compare) and len(test.ops) == 1 and not (isinstance(test.left, ast.Name) and test.left.id in env and isinstance(env[test.left.id], Iv)) and isinstance(test.comparators[0], ast.Name) and test.comparators[0].id in env and isinstance(env[test.comparators[0].id], Iv):
+            # `0 < k` is `k > 0`: the refined variable on the left
+            flip = {ast.Lt: ast.Gt, ast.Gt: ast.Lt, ast.LtE: ast.GtE, ast.GtE: ast.LtE}
+            op = test.ops[0]
+            test = ast.copy_location(ast.Compare(left=test.comparators[0], ops=[flip.get(type(op), type(op))()], comparators=[test.left]), test)
         if isinstance(test, ast.Compare) and len(test.ops) == 1 and isinstance(test.left, ast.Name) and test.left.id in env and isinstance(env[test.left.id], Iv):
             fr = interp.stack[-1] if interp.stack else None
             try:
